@@ -21,6 +21,7 @@ import (
 
 var prop = flag.String("prop", "C01", "C01..C06")
 var profile = flag.String("profile", "mock", "mock = mocktikv's MVCC store | full = the Lean store (cgv-full) with async commit / 1PC / CheckSecondaryLocks")
+var scale = flag.Int("scale", 100, "percent of the tier's scenario count (the checks run both profiles at 60%)")
 var fullExe = flag.String("full", "", "path of the cgv-full executable (profile full)")
 
 // lean is the Lean store server of profile full (nil in profile mock)
@@ -86,6 +87,15 @@ func main() {
 	run.Stats["wall_ms"] = int(time.Since(t0).Milliseconds())
 	run.Stats["scenarios"] = rec.Cases()
 	run.Stats["goroutines_at_end"] = runtime.NumGoroutine()
+}
+
+// scaled applies -scale to a scenario count (at least 1).
+func scaled(n int) int {
+	n = n * *scale / 100
+	if n < 1 {
+		n = 1
+	}
+	return n
 }
 
 func must(err error) {
